@@ -81,9 +81,8 @@ def model_att(case):
     if case["min_obs"] is not None:
         need = case["min_obs"]
     elif case["min_period"] is not None:
-        steps = sorted(b - a for a, b in zip(t, t[1:]))
-        med = statistics.median(steps)
-        need = int(case["min_period"] / med)
+        steps = sorted(Fraction(b) - Fraction(a) for a, b in zip(t, t[1:]))
+        need = int(Fraction(case["min_period"]) / statistics.median(steps)) if steps else 0
     seen_short = False
     for i in range(n):
         idx = [j for j in range(i + 1) if t[i] - P < t[j] <= t[i]]
@@ -139,13 +138,9 @@ def att_case(draw, tier="quick"):
         P = draw(st.one_of(*ch))
         if mode == "min_obs":
             mo = draw(st.integers(1, 6))
-        elif mode == "min_period" and n >= 2 and not subsec:
+        elif mode == "min_period":
+            # (the sampling step is the median step, in seconds and fractions of a second)
             mp = draw(st.one_of(st.sampled_from([30, 60, 90, 120, 240, 600]), st.integers(1, 4000)))
-            med = statistics.median(b_ - a_ for a_, b_ in zip(t, t[1:]))
-            if med != int(med):
-                # (an even number of steps whose two middle values differ: the median step is a half second, and the
-                # statement does not say how a fractional step is rounded - same exclusion as for sub-second axes)
-                mp = None
     off = 0.0
     if mode == "none" or check == "range":
         # a signal riding on a large offset (the windowed standard deviation is left out: pandas' online variance is not
